@@ -116,6 +116,7 @@ PK = [
 ]
 
 PROP = {
+    "max_jobs": 6,  # parallel CBMC jobs (memory profile of these harnesses)
     "claim": "pure differential checks on identical symbolic bytes (no reference model), for every input inside the per-harness bound: "
              "(a) 11 of the 12 IP boundary implementations agree pairwise along the chain IpSlice = Ipv4Slice/Ipv6Slice = "
              "from_ipv4_slice/from_ipv6_slice, and LaxIpSlice = LaxIpv4Slice/LaxIpv6Slice = from_ipv4_slice_lax/from_ipv6_slice_lax = "
